@@ -92,7 +92,11 @@ class Ref:
 
 UNIT = Adt("()", [])
 VARIANT_INDEX = {"Ok": 0, "Err": 1, "None": 0, "Some": 1, "Continue": 0, "Break": 1,
-                 "DecoderState::InitialState": 0, "DecoderState::BeforeChunk": 1, "DecoderState::MidHeader": 2, "DecoderState::InChunk": 3}
+                 "DecoderState::InitialState": 0, "DecoderState::BeforeChunk": 1, "DecoderState::MidHeader": 2, "DecoderState::InChunk": 3,
+                 "State::SkipSentinel": 0, "State::DecodeRecord": 1, "State::SkipRecord": 2,
+                 "StreamAction::KeepGoing": 0, "StreamAction::SkipRecord": 1, "StreamAction::Stop": 2,
+                 "Chunk::Sentinel": 0, "Chunk::Eof": 1, "Chunk::Data": 2}
+QUALIFIED_ENUMS = ("State", "StreamAction", "Chunk")
 
 
 def width_of(ty):
@@ -237,8 +241,12 @@ class Interp:
         for k, (v, _ty) in self.m.consts.items():
             if k.endswith("::" + text) or text.endswith("::" + k):
                 return v
-        if re.match(r"^[A-Z_][A-Z0-9_]*$", text):
-            v = self.named_const(text)
+        mm = re.match(r"^core::num::<impl (\w+)>::MAX$", text)
+        if mm:
+            w, sg = INT_TYPES[mm.group(1)]
+            return (1 << (w - 1)) - 1 if sg else (1 << w) - 1
+        if re.match(r"^(?:\w+::)*[A-Z_][A-Z0-9_]*$", text):
+            v = self.named_const(text.split("::")[-1])
             if v is not None:
                 return v
         if "promoted[" in text and ("STUFF" in self.consts):
@@ -521,8 +529,10 @@ class Interp:
             v = self.read_place(st, m.group(1))
             if not isinstance(v, Adt):
                 raise Unsupported("discriminant of %r" % (v,))
+            if v.name in VARIANT_INDEX:
+                return VARIANT_INDEX[v.name]
             for k, i in VARIANT_INDEX.items():
-                if v.name == k or v.name.endswith("::" + k):
+                if v.name.endswith("::" + k) or k.endswith("::" + v.name):
                     return i
             raise Unsupported("discriminant of " + v.name)
         m = re.match(r"^&(?:mut |raw const |raw mut )?(.*)$", text)
@@ -572,7 +582,10 @@ class Interp:
             return Adt(re.sub(r"::<.*>$", "", m.group(1)).split("::")[-1], fields)
         m = re.match(r"^([\w:]+)$", text)
         if m and text.split("::")[-1][0].isupper():
-            return Adt(text.split("::")[-1], [])
+            parts = text.split("::")
+            if len(parts) >= 2 and parts[-2] in QUALIFIED_ENUMS:
+                return Adt(parts[-2] + "::" + parts[-1], [])
+            return Adt(parts[-1], [])
         if text.startswith(("copy ", "move ", "const ")):
             return self.operand(st, text)
         raise Unsupported("rvalue " + text)
@@ -839,6 +852,9 @@ class Interp:
             body = self.closure_body(clo)
             self.push_frame(st, body, [clo] + list(tup.fields), dst, nxt)
             return None
+        h = self.stream_call(st, dst, c, args, nxt)
+        if h is not NotImplemented:
+            return h
         if re.search(r"NonZero::<\w+>::new_unchecked$", c):
             self.ret(st, dst, args[0], nxt)
             return None
@@ -861,6 +877,138 @@ class Interp:
             self.ret(st, dst, Adt("OwningIovec", {}), nxt)
             return None
         raise Unsupported("call " + c)
+
+    # ---- StreamReader support (C06) ---------------------------------------------------------------
+    def val(self, st, v):
+        while isinstance(v, Ref):
+            v = self.deref(st, v)
+        return v
+
+    def stream_call(self, st, dst, c, args, nxt):
+        if re.match(r"^(std::ops::)?Range::<u64>::is_empty$", c):
+            r = self.val(st, args[0])
+            self.ret(st, dst, not (r.get("start") < r.get("end")), nxt)
+            return None
+        if re.match(r"^<(std::ops::)?Range<u64> as Clone>::clone$", c):
+            self.ret(st, dst, self.val(st, args[0]), nxt)
+            return None
+        if re.match(r"^<&+u64 as PartialEq>::(eq|ne)$", c):
+            a, b = self.val(st, args[0]), self.val(st, args[1])
+            self.ret(st, dst, (a == b) if c.endswith("eq") else (a != b), nxt)
+            return None
+        if c == "<State as PartialEq>::eq":
+            # derived PartialEq on a field-less enum
+            self.ret(st, dst, self.val(st, args[0]).name == self.val(st, args[1]).name, nxt)
+            return None
+        if re.match(r"^Option::<\w+>::unwrap_or$", c):
+            v = args[0]
+            self.ret(st, dst, v.fields[0] if v.name == "Some" else args[1], nxt)
+            return None
+        if re.search(r"Result::<.*>::is_err$", c):
+            self.ret(st, dst, self.val(st, args[0]).name == "Err", nxt)
+            return None
+        if re.search(r"Result::<.*>::is_ok$", c):
+            self.ret(st, dst, self.val(st, args[0]).name == "Ok", nxt)
+            return None
+        if c.endswith("AnchoredSlice::slice"):
+            self.ret(st, dst, self.val(st, args[0]).get("slice"), nxt)
+            return None
+        if re.search(r"OwningIovec::(<'_>::)?clear$", c):
+            st.events.append(("clear",))
+            self.ret(st, dst, UNIT, nxt)
+            return None
+        if re.search(r"OwningIovec::(<'_>::)?take$", c):
+            self.ret(st, dst, Adt("OwningIovec", {}), nxt)
+            return None
+        if re.search(r"OwningIovec::(<'_>::)?consumer$", c):
+            total = 0
+            for e in st.events:
+                if e[0] == "clear":
+                    total = 0
+                elif e[0] in ("push", "push_copy", "push_borrowed"):
+                    total += len(e[1])
+                elif e[0] == "register":
+                    total += e[2]
+            self.ret(st, dst, Adt("ConsumingIovec", {"total": total}), nxt)
+            return None
+        if re.match(r"^<ConsumingIovec(<'_>)? as Deref(Mut)?>::deref(_mut)?$", c):
+            self.ret(st, dst, self.val(st, args[0]), nxt)
+            return None
+        if re.search(r"OwningIovec::(<'_>::)?total_size$", c):
+            self.ret(st, dst, self.val(st, args[0]).get("total"), nxt)
+            return None
+        if re.search(r"ConsumingIovec::(<'_>::)?arena$", c):
+            self.ret(st, dst, Adt("ArenaHandle", {}), nxt)
+            return None
+        if re.match(r"^<.* as FnMut<.*>>::call_mut$", c):
+            clo, tup = self.val(st, args[0]), args[1]
+            body = self.closure_body(clo)
+            self.nback += 1
+            k = "clo:%d" % self.nback
+            st.store[k] = clo
+            self.push_frame(st, body, [Ref(k)] + list(tup.fields), dst, nxt)
+            return None
+        if re.match(r"^StreamChunker::pump::<.*>$", c):
+            return self.pump_contract(st, dst, args, nxt)
+        return NotImplemented
+
+    def pump_contract(self, st, dst, args, nxt):
+        """StreamChunker::pump replaced by the contract that C08 decides for the real function: the chunks tile the
+        stream; a Sentinel is returned exactly where the remaining stream starts with FE FD; a Data chunk is a non-empty
+        prefix of the remaining stream that stops at or before the next FE FD (any such length: the read schedule and
+        block size choose it); Eof when nothing is left.  The chunker state is (remaining stream, absolute offset)."""
+        ch_ref = args[0]
+        ch = self.val(st, ch_ref)
+        rest, off = ch.get("rest"), ch.get("offset")
+        n = len(rest.elems)
+
+        def upd(s2, k):
+            self.write_at(s2, ch_ref.key, list(ch_ref.proj), Adt("StreamChunker", {"rest": Slice(rest.elems[k:], rest.tag), "offset": off + k}))
+
+        if n == 0:
+            self.ret(st, dst, Adt("Ok", [Adt("Chunk::Eof", [])]), nxt)
+            return None
+        outs = []
+        # positions of the first stuff sequence in `rest`
+        prev = []
+        splits = self.pump_splits
+        self.npump = getattr(self, "npump", 0) + 1
+        for idx in range(0, n):
+            here = self.both(rest.elems[idx], 0xFE, rest.elems[idx + 1], 0xFD) if idx + 1 < n else False
+            # case: first stuff sequence at idx (or, at idx == n-1 ... none at all handled after the loop)
+            if here is not False:
+                conds = list(prev) + ([here] if here is not True else [])
+                if idx == 0:
+                    s2 = st.fork()
+                    s2.cond += conds
+                    upd(s2, 2)
+                    self.ret(s2, dst, Adt("Ok", [Adt("Chunk::Sentinel", [off + 2])]), nxt)
+                    outs.append(s2)
+                else:
+                    for k in splits(idx, st):
+                        s2 = st.fork()
+                        s2.cond += conds
+                        upd(s2, k)
+                        a = Adt("AnchoredSlice", {"slice": Slice(rest.elems[:k], "anch%d" % self.npump), "anchor": Adt("Anchor", {"id": self.npump})})
+                        self.ret(s2, dst, Adt("Ok", [Adt("Chunk::Data", [Adt("tuple", [off + k, a])])]), nxt)
+                        outs.append(s2)
+                if here is True:
+                    prev = None
+                    break
+                prev.append("(not %s)" % here)
+        if prev is not None:
+            for k in splits(n, st):
+                s2 = st.fork()
+                s2.cond += prev
+                upd(s2, k)
+                a = Adt("AnchoredSlice", {"slice": Slice(rest.elems[:k], "anch%d" % self.npump), "anchor": Adt("Anchor", {"id": self.npump})})
+                self.ret(s2, dst, Adt("Ok", [Adt("Chunk::Data", [Adt("tuple", [off + k, a])])]), nxt)
+                outs.append(s2)
+        return outs
+
+    def pump_splits(self, maxlen, st):
+        """Lengths a Data chunk may take when `maxlen` bytes precede the next sentinel / the end: all of them by default."""
+        return range(1, maxlen + 1)
 
     def both(self, x, cx, y, cy):
         """SMT condition (or True/False) for x == cx and y == cy."""
